@@ -42,28 +42,6 @@ Compile(header, signals, prog, decls, ownWrite) ==
 Cx(it) == [env |-> it.env, outs |-> it.outs, vars |-> TRUE]
 
 -----------------------------------------------------------------------------
-\* Evaluation of the entries of a data row, left to right.  bits(n,e) yields
-\* n one-bit entries, most significant first.
-RECURSIVE BitsOf(_, _)
-BitsOf(w, n) ==                       \* bits n-1 .. 0 of w
-  IF n = 0 THEN <<>>
-  ELSE <<[k |-> "num", v |-> WFromNat(WBit(w, n - 1))]>> \o BitsOf(w, n - 1)
-
-RECURSIVE EvalEntries(_, _, _, _, _, _)
-EvalEntries(entries, j, cx, rs, pos, acc) ==
-  IF j > Len(entries) THEN [ok |-> TRUE, entries |-> acc, pos |-> pos]
-  ELSE LET en == entries[j]
-       IN  CASE en.k = "expr" ->
-                  LET r == Eval(en.e, cx, rs, pos)
-                  IN  IF ~r.ok THEN r
-                      ELSE EvalEntries(entries, j + 1, cx, rs, r.pos,
-                                       Append(acc, [k |-> "num", v |-> r.v]))
-             [] en.k = "bits" ->
-                  LET r == Eval(en.e, cx, rs, pos)
-                  IN  IF ~r.ok THEN r
-                      ELSE EvalEntries(entries, j + 1, cx, rs, r.pos, acc \o BitsOf(r.v, en.n))
-             [] OTHER -> EvalEntries(entries, j + 1, cx, rs, pos, Append(acc, en))
-
 -----------------------------------------------------------------------------
 \* The statement iterator.  Result:
 \*   [y |-> "row", it, entries, line, pos] | [y |-> "end", it, pos]
